@@ -1,6 +1,6 @@
 """C03 bounded layer: the diff is a faithful, lossless description of old versus new.
 
-Real compiled rulebooks (annet.rulebook.patching.compile_patching_text on generated rule texts: literal words, `*`, trailing
+Real compiled rulebooks (annet.rulebook.patching.compile_patching_text on generated rule texts: literal words, `*`, `*/regex/`, trailing
 `~`, nested blocks, %ordered, %rewrite, `!ignore` rules, overlapping rules), real annet.annlib.patching.make_diff /
 strip_unchanged / make_pre, real formatter.diff of all 14 registry vendors and real gen_pre_as_diff; enumerated pairs of
 small trees (old, new) whose rows instantiate the rules (plus rows no rule knows).
@@ -21,6 +21,7 @@ import hashlib
 import itertools
 import json
 import random
+import re
 
 from bounded.common import setup_annet
 
@@ -97,6 +98,18 @@ RULEBOOKS = [
     dict(name="overlap-ignore", vendor="pc",
          rules=[R("a 1 *", ordered=True), R("a ~"), R("ign ~", ignore=True), R("b")],
          rows={(): ["a 1 x", "a 1 y", "a 2", "ign 1", "b"]}),
+    # a specific block rule before a generic one, with DIFFERENT children rules: a child known only to the first rule, only
+    # to the second, to both with different key shapes, and an !ignore rule that comes after a matching normal rule
+    dict(name="overlap-blocks", vendor="b4com",
+         rules=[R("blk */1\\d*/", R("only1 ~"), R("both *")),
+                R("blk *", R("only2 ~"), R("both ~", ordered=True), R("both hid ~", ignore=True)),
+                R("x ~"), R("x 9 ~", ignore=True)],
+         rows={(): ["blk 1", "blk 2", "blk 10", "x 9 z", "x 1"], ("blk",): ["only1 a", "only2 a", "both k v", "both hid z"]}),
+    # the generic (ordered) block rule first, the specific one second
+    dict(name="overlap-blocks-rev", vendor="optixtrans",
+         rules=[R("sec *", R("gen ~"), R("mix ~"), ordered=True),
+                R("sec */a\\w*/", R("spec *"), R("mix * *"), R("gen no ~", ignore=True))],
+         rows={(): ["sec a1", "sec b", "sec a2", "zz", "sec c"], ("sec",): ["spec 1", "gen x", "mix p q", "gen no y"]}),
     dict(name="mixed-groups", vendor="nexus",
          rules=[R("o ~", ordered=True), R("u ~"), R("blk", R("o ~", ordered=True), R("u ~"))],
          rows={(): ["o 1", "o 2", "u 1", "u 2", "blk"], ("blk",): ["o 1", "o 2", "u 1", "o 3"]}),
@@ -128,11 +141,21 @@ def pattern_matches(pat, row):
         head = pt
         if len(words) < len(head):
             return False
-    return all(p == "*" or p == w for p, w in zip(head, words))
+    return all(_word_matches(p, w) for p, w in zip(head, words))
+
+
+def _word_matches(p, w):
+    if p == "*":
+        return True
+    if p.startswith("*/") and p.endswith("/") and len(p) > 3:      # */regex/ : one word of that shape
+        return re.fullmatch(p[2:-1], w) is not None
+    return p == w
 
 
 def govern(rules, row):
-    """-> (logic, children rules) or None when no rule knows the row"""
+    """-> (logic, children rules) or None when no rule knows the row: the first matching rule decides the logic, the children
+    rules are the union of the children rules of ALL matching rules (in rule order), a matching `!` rule anywhere makes the
+    row unknown"""
     ms = [r for r in rules if pattern_matches(r["pat"], row)]
     if not ms or any(r["ignore"] for r in ms):
         return None
@@ -565,8 +588,9 @@ def run(tier="quick", seed=0, part=0, nparts=1):
         for kind, exp, got in res:
             record(kind, dict(synthetic=dict(shape=shape, ops=ops)), exp, got)
     return dict(evaluations=ev, nontrivial=sorted(nontrivial), failures=failures, samples=samples,
-                rule="7 real compiled rulebooks (default; %%ordered children; %%ordered on 3 levels; %%rewrite; overlapping rules + "
-                     "!ignore; ordered and unordered rules on one level; ordered parent with default children), rows = 5 candidates "
+                rule="9 real compiled rulebooks (default; %%ordered children; %%ordered on 3 levels; %%rewrite; overlapping rules + "
+                     "!ignore; two with overlapping block rules (*/regex/ before/after *) whose children rule sets differ and an "
+                     "!ignore after a matching normal rule; ordered and unordered rules on one level; ordered parent with default children), rows = 5 candidates "
                      "per level incl. one no rule knows. Per rulebook: (A) every pair of top level sequences of <= 3 rows with small "
                      "fixed children, (B) one block in focus: every pair of child sequences (<= 3 of %s candidates) under every top "
                      "level situation of <= 2 rows%s, plus %d seeded random/mutated pairs (depth <= %d). Plus every synthetic diff "
@@ -575,7 +599,7 @@ def run(tier="quick", seed=0, part=0, nparts=1):
                      % ("3" if tier == "quick" else "4", "" if tier == "quick" else ", (C) depth 3: every pair of grandchild sequences "
                         "under 9 parent situations", 500 if tier == "quick" else 8000, 2 if tier == "quick" else 3,
                         4 if tier == "quick" else 5),
-                bound="<=3 rows/level, depth<=%d, 5 candidate rows/level, 7 rulebooks; synthetic diffs <=%d nodes"
+                bound="<=3 rows/level, depth<=%d, 5 candidate rows/level, 9 rulebooks; synthetic diffs <=%d nodes"
                       % (2 if tier == "quick" else 3, 4 if tier == "quick" else 5))
 
 
